@@ -26,8 +26,8 @@ RTOL = 1e-8          # (rel) sub-claims through SVD / eig
 INVS = {
     "proj": ["ProjHermitian", "ProjIdempotent", "ProjFixesA", "ProjComplementary", "ReflectTwice", "ProjRank", "ProjSplits", "ProjScaleLaw", "ProjBasisLaw"],
     "projhist": ["ProjObjectCoherent", "ProjHistInputs"],
-    "chord": ["ChordFormsAgree", "ChordSymmetric", "ChordZeroOnEqual", "ChordBasisInvariant", "ChordUnitaryInvariant", "ChordHouseholderIsUnitary", "ChordAngles", "ChordBasisFormLaw", "ChordRange"],
-    "chordx": ["ChordXFormsAgree", "ChordXSymmetric", "ChordXBasisInvariant", "ChordXUnitaryInvariant", "ChordXBasisFormLaw", "ChordXRange"],
+    "chord": ["ChordFormsAgree", "ChordSymmetric", "ChordZeroOnEqual", "ChordBasisInvariant", "ChordUnitaryInvariant", "ChordHouseholderIsUnitary", "ChordAngles", "ChordBasisFormLaw", "ChordMixedSymmetric", "ChordRange"],
+    "chordx": ["ChordXFormsAgree", "ChordXSymmetric", "ChordXBasisInvariant", "ChordXUnitaryInvariant", "ChordXBasisFormLaw", "ChordXMixedSymmetric", "ChordXRange"],
     "smw": ["SmwIsInverse", "SmwScaleLaw"],
     "conv": ["ConvInverse", "ConvOffset", "ConvFullPrecision"],
     "ebn0": ["EbLaw", "ConvFullPrecision"],
@@ -234,6 +234,15 @@ def ev_proj(c, o):
     for dt, A in variants(c["A"], k):
         ka = 1.0 if dt == "int" else k
         t = f"[{dt}, k=1e{c['sc'] if dt != 'int' else 0}] "
+        if dt != "int":
+            # mixed real / complex operands: a REAL float matrix and a complex multiple of M through the same projector
+            ok, prm = _call(o, t + "Projection(A)", Projection, A)
+            if ok:
+                Mr = mat(c["Mr"]).real.copy()
+                o.check(close(prm.project(Mr), mat(c["PMr"], den)) and close(prm.oProject(Mr), Mr - mat(c["PMr"], den))
+                        and close(prm.reflect(Mr), Mr - 2 * mat(c["PMr"], den)), t + "project / oProject / reflect of a REAL float matrix (mixed operands)")
+                z = 1 + 2j
+                o.check(close(prm.project(M * z), PM * z) and close(prm.reflect(M * z), RM * z), t + "project / reflect of a complex multiple of M (linearity, mixed operands)")
         ok, Q = _call(o, t + "calcProjectionMatrix", calcProjectionMatrix, A)
         if ok:
             o.check(close(Q, P), t + "calcProjectionMatrix(A) != A (A^H A)^-1 A^H")
@@ -344,6 +353,15 @@ def ev_chord(c, o):
                     if ok:
                         o.check(0 <= float(np.real(d)) <= (1e-7 if "angles" in name else 1e-11),
                                 f"{name}: d(A [{na}], {what}) = {float(np.real(d))!r} for two bases of the same subspace, must vanish")
+        if c.get("Ar"):
+            # mixed operands: a REAL float array against a complex one, both argument orders
+            Ar = mat(c["Ar"]).real.copy() * k
+            for what, x, y, e in (("d(Re A [float array], B [complex])", Ar, B, rat(c["d2rc"][0])), ("d(B [complex], Re A [float array])", B, Ar, rat(c["d2rc"][1])),
+                                  ("d(Re A [float], Re A [complex dtype])", Ar, Ar.astype(complex), 0.0), ("d(Re A [complex dtype], Re A [float])", Ar.astype(complex), Ar, 0.0)):
+                ok, d = _call(o, f"{name} {what}", f, x, y)
+                if ok:
+                    d = float(np.real(d))
+                    o.check(d >= 0 and close(d * d, e), f"{name}: {what}^2 = {d * d!r}, expected {e!r} (mixed real / complex operands)")
         if c.get("AI"):
             # nearly dependent basis of span(A) (cond ~ 1e4): same subspace, same distance; the routine through
             # inv(A^H A) is allowed cond^2 eps, the QR based ones cond eps
@@ -360,6 +378,12 @@ def ev_chord(c, o):
     # the principal angles themselves: n angles in [0, pi/2], ascending, with the exact sum and product of cos^2
     n = c["n"]
     extra = [(f"A [{na}], B [{nb}]", xa, xb, None) for (na, xa), (nb, xb) in zip(basis_forms(c, "A", A, k), reversed(basis_forms(c, "B", B, 1.0 / k)))]
+    if c.get("Ar"):
+        for x, y in ((mat(c["Ar"]).real.copy() * k, B), (B, mat(c["Ar"]).real.copy() * k)):
+            ok, ang = _call(o, "calc_principal_angles (mixed real / complex)", mt.calc_principal_angles, x, y)
+            if ok:
+                o.check(close(float(np.sum(np.sin(np.asarray(ang, dtype=float)) ** 2)), rat(c["d2rc"][0])),
+                        "calc_principal_angles(real, complex): sum sin^2 != d^2 of the two subspaces")
     for dt, a, b, at in sets + extra:
         ok, ang = _call(o, "calc_principal_angles", mt.calc_principal_angles, a, b)
         if ok:
@@ -393,6 +417,13 @@ def ev_chordx(c, o):
                 if ok:
                     d = float(np.real(d))
                     o.check(d >= 0 and close(d * d, d2), f"[{dt}] {name} {dims}: {what}^2 = {d * d!r}, expected {d2!r}")
+        if c.get("Ar"):
+            Ar = mat(c["Ar"]).real.copy() * k
+            for what, x, y, e in (("d(Re A [float array], B [complex])", Ar, B, rat(c["d2rc"][0])), ("d(B [complex], Re A [float array])", B, Ar, rat(c["d2rc"][1]))):
+                ok, d = _call(o, f"{name} {what} {dims}", f, x, y)
+                if ok:
+                    d = float(np.real(d))
+                    o.check(d >= 0 and close(d * d, e), f"{name} {dims}: {what}^2 = {d * d!r}, expected {e!r} (mixed real / complex operands)")
         fa = [("as built", A)] + basis_forms(c, "A", A, k)
         fb = [("as built", B)] + basis_forms(c, "B", B, 1.0 / k)
         for i, (na, xa) in enumerate(fa):
@@ -481,10 +512,35 @@ def ev_conv(c, o):
         av = np.array([m, 1, 10], dtype=ty)
         o.check(close(np.asarray(cv.linear2dB(av), dtype=float), np.array([ref, 0.0, 10.0])),
                 f"linear2dB({c['atype']} array [{m}, 1, 10]) differs from the double precision values", fid)
+    for dtp in (np.float64, np.float32):
+        lv = np.array([x, lin(1, k), 3.0], dtype=dtp)
+        dv = np.array([y, 10.0 * k, -3.0], dtype=dtp)
+        for name, f, a in (("linear2dB", cv.linear2dB, lv), ("linear2dBm", cv.linear2dBm, lv), ("dB2Linear", cv.dB2Linear, dv), ("dBm2Linear", cv.dBm2Linear, dv)):
+            conv_frame(o, f"{name}[{np.dtype(dtp).name}]", f, a.copy())
+    lv = np.array([x, lin(1, k)])
+    keep = lv.copy()
+    o.check(bool(np.all(np.abs(cv.dBm2Linear(cv.linear2dBm(lv)) - keep) <= 1e-9 * np.abs(keep))) and np.array_equal(lv, keep),
+            "dBm2Linear(linear2dBm(p)) != p for a float array p (or p was changed)")
     # array arguments
     arr = np.array([10.0 * k, y])
     got = cv.dBm2Linear(arr)
     o.check(relclose(got[0], lin(1, c["linOfdBm"])) and close(cv.linear2dBm(got), arr), "array arguments: dBm2Linear / linear2dBm")
+
+
+def conv_frame(o, name, f, arr, *rest):
+    """frame laws of a conversion called with a float ARRAY (field `frame` of the case): the array is bit-identical
+    afterwards, and a second call with the same array returns the same values"""
+    keep = arr.copy()
+    try:
+        r1 = np.array(f(arr, *rest), dtype=float, copy=True)
+        mid = arr.copy()
+        r2 = np.array(f(arr, *rest), dtype=float, copy=True)
+    except Exception as ex:  # noqa
+        o.check(False, f"{name}(float array) raised {type(ex).__name__}: {ex}")
+        return
+    o.check(np.array_equal(keep, mid) and np.array_equal(keep, arr), f"{name} modified its float array argument (ArgumentsUnchanged)")
+    o.check(r1.shape == r2.shape and np.array_equal(r1, r2), f"{name}: a second call with the same array returned other values (SecondCallSameResult)")
+    o.check(not np.shares_memory(np.asarray(f(arr, *rest)), arr), f"{name}: the result shares memory with the argument")
 
 
 def ev_ebn0(c, o):
@@ -505,6 +561,9 @@ def ev_ebn0(c, o):
         o.check(close(cv.SNR_dB_to_EbN0_dB(float(c["snrdB"][0]), b), e0), f"SNR_dB_to_EbN0_dB({c['snrdB'][0]}, {b}) != {e0}")
     arr = np.array([e0, y])
     o.check(close(cv.SNR_dB_to_EbN0_dB(cv.EbN0_dB_to_SNR_dB(arr, b), b), arr), "array arguments: Eb/N0 <-> SNR round trip")
+    for dtp in (np.float64, np.float32):
+        conv_frame(o, f"SNR_dB_to_EbN0_dB[{np.dtype(dtp).name}]", cv.SNR_dB_to_EbN0_dB, arr.astype(dtp), b)
+        conv_frame(o, f"EbN0_dB_to_SNR_dB[{np.dtype(dtp).name}]", cv.EbN0_dB_to_SNR_dB, arr.astype(dtp), b)
 
 
 def projector(V):
